@@ -159,7 +159,7 @@ def _build():
         "C02",
         "exploration",
         "seeded SEQ-SIM runs (world, per-channel programs, interleaving, faults all from VERIF_SEED); a run is non-trivial if it has >=2 channels and >=2 automatically inserted delays; distinct = distinct concrete op traces",
-        A.make_profile(),
+        A.make_profile(empty_name_p=0.12),
         lambda: [c02.C02()],
         nontrivial_fn=c02.nontrivial,
         assumptions=["Pulse.fall_time of the real code is a trusted input to the expected pending-fall duration"],
@@ -297,6 +297,7 @@ def _build():
             observers={"obs_str": 0.3, "obs_sample": 6, "obs_duration": 0.3, "obs_estimate": 0.3, "obs_phase_ref": 0.2, "obs_props": 0.2, "obs_abstract": 0.2, "obs_legacy": 0.2, "obs_draw": 0.0},
             w_fault=0.3,
             fault_kinds={"bad": 2, "restart": 2, "cache": 1},
+            restart_kinds={"restart_abstract": 2, "restart_legacy": 1, "restart_build": 1, "restart_switch_register": 1, "restart_switch_device_same": 0.5, "restart_swap_register": 2},
             slm_p=0.45,
             slm_p_xy=0.8,
             use_xy_p=0.8,
